@@ -382,6 +382,10 @@ def u_faults(W, sk):
     if rng.random() < 0.4:
         df = df.rename(columns={dm.name: dm.letter for dm in dims.dim_list})
         W.inputs["headers"] = "dimension letters"
+    if rng.random() < 0.35 and len(df) >= 2:
+        # row labels of the frame repeat (as after pd.concat of partial tables): rows are rows, whatever their label
+        df.index = np.arange(len(df)) % max(2, len(df) // 2)
+        W.inputs["row_labels"] = "repeated"
     W.inputs["table"] = df.astype(str).values.tolist()
     via = sk["via"]
     df0 = df.copy(deep=True)
